@@ -1095,6 +1095,11 @@ def delitem(world, ex, o, k):
             return
         raise PyRaise(ExcVal("KeyError"))
     if isinstance(o, list):
+        if isinstance(k, slice):
+            if all(x is None or isinstance(x, int) for x in (k.start, k.stop, k.step)):
+                del o[k]
+                return
+            raise Unsupported("del with a symbolic slice")
         del o[norm_index(world, ex, k, len(o))]
         return
     raise Unsupported("del item")
